@@ -17,7 +17,7 @@ package protobuf
 //@   props C12
 //@   recovers
 //@   nopanic
-//@   ensures *er != nil
+//@   ensures er != nil
 
 //@ func (*encoder).DecodeFrom
 //@   props C12
@@ -26,4 +26,4 @@ package protobuf
 //@   props C12
 //@   recovers
 //@   nopanic
-//@   ensures *er != nil
+//@   ensures er != nil
